@@ -58,11 +58,12 @@ type TermStore struct {
 	tab   map[string]*Term
 	next  int
 	decls map[string]string // symbol -> declaration text
+	axioms map[string]string // function symbol -> axiom text, emitted when the symbol occurs
 	order []string
 	fresh int
 }
 
-var TS = &TermStore{tab: map[string]*Term{}, decls: map[string]string{}}
+var TS = &TermStore{tab: map[string]*Term{}, decls: map[string]string{}, axioms: map[string]string{}}
 
 func (ts *TermStore) mk(op, name string, sort Sort, args ...*Term) *Term {
 	var sb strings.Builder
@@ -904,6 +905,12 @@ func SMTQuery(asserts []*Term, prelude []string, getModel bool) string {
 	if pre != "" {
 		sb.WriteString(pre)
 		sb.WriteByte('\n')
+	}
+	for _, n := range TS.order {
+		if ax, ok := TS.axioms[n]; ok && p.syms[n] {
+			sb.WriteString(ax)
+			sb.WriteByte('\n')
+		}
 	}
 	// defs must be interleaved in dependency order: they were appended post-order, so fine.
 	for _, d := range p.defs {
